@@ -218,6 +218,23 @@ func (e *Engine) mergeVal(g string, a, b Val, sa, sb *State, what string) Val {
 					m[k] = e.share(ite(g, ma[k], mb[k]), e.arrSort(leafSort(na, k)))
 				}
 				e.mergeOut.arrs[na] = m
+				if e.arrCap == nil {
+					e.arrCap = map[*Arr]string{}
+				}
+				ca, oka := e.arrCap[x.Arr]
+				cb, okb := e.arrCap[y.Arr]
+				if oka || okb {
+					// the merged backing array is as large as the one it stands for
+					if !oka {
+						ca = e.capTerm(SliceV{Arr: x.Arr, Off: x.Off, Len: x.Len})
+						ca = e.arrCap[x.Arr]
+					}
+					if !okb {
+						cb = e.capTerm(SliceV{Arr: y.Arr, Off: y.Off, Len: y.Len})
+						cb = e.arrCap[y.Arr]
+					}
+					e.arrCap[na] = ite(g, ca, cb)
+				}
 				return SliceV{Arr: na, Off: x.Off, Len: e.share(ite(g, x.Len, y.Len), ""), Nil: ite(g, x.Nil, y.Nil)}
 			}
 		}
